@@ -303,6 +303,13 @@ def cbCount (log : Log) (c n i b : Nat) : Nat :=
      | some (.cb c' n' _) => c' == c && n' == n
      | _ => false))).length
 
+/-- the acting caller of the event at position m -/
+def whoAt (log : Log) (m : Nat) : Option Nat := (evAt log m).bind (·.who)
+
+/-- number of events of caller `c` at positions in (v, m) -/
+def countOf (log : Log) (c v m : Nat) : Nat :=
+  ((List.range m).filter (fun x => decide (v < x) && (whoAt log x == some c))).length
+
 /-- position of the next connect attempt of `c` after i (`log.length` if there is none) -/
 def nextConnectBy (log : Log) (c i : Nat) : Nat :=
   ((List.range log.length).find? (fun m => decide (i < m) &&
